@@ -51,6 +51,9 @@ type MuxFault struct {
 	Off   int    `json:"off"`   // cut: bytes delivered before the cut, counted from the start
 	After int    `json:"after"` // close-*/kill: armed once this many payload frames were written in total
 	N     int    `json:"n"`     // close-mux: number of concurrent closers
+	// Transient (partial-write): the trunk write fails half-way with a timeout but the trunk stays usable:
+	// nothing may follow the torn frame
+	Transient bool `json:"transient,omitempty"`
 }
 
 type MuxW struct {
@@ -194,6 +197,7 @@ func muxGen(focus string) func(rng *rand.Rand, conf string, idx int) any {
 				f.ID = pick(rng, w.IDs)
 				f.Off = rng.Intn(40 + 30*total)
 				f.N = 1 + rng.Intn(4)
+				f.Transient = f.Kind == "partial-write" && rng.Intn(2) == 0
 				w.Faults = append(w.Faults, f)
 			}
 		}
@@ -632,7 +636,12 @@ func muxRun(t *testing.T, wl any, sc SchedCfg) *Result {
 				if f.End == 1 {
 					c = tb
 				}
-				c.FailWriteAt(f.Off)
+				if f.Transient {
+					c.FailWriteOnceAt(f.Off)
+					e.S.Probe("C11.partial-trunk-write-on-a-trunk-that-stays-usable")
+				} else {
+					c.FailWriteAt(f.Off)
+				}
 			case "freeze-close":
 				// the direction written by end f.End goes silent after f.Off delivered bytes (possibly in the
 				// middle of a frame) without any end of stream; once nothing else happens the RECEIVING end is
